@@ -51,7 +51,7 @@ LAWS_THOROUGH = (LAWS_QUICK + L(0, NOSIM, [0, 2], NORD=1) + L(1, [1, 4, 6, 7], [
 CHECKS = {
  'C19': {
   'level': 'model_checking',
-  'explanation': 'Metamorphic checks executed symbolically on every automaton / pair / triple drawn from the rule universes of the configuration. The library operands are built as TWINS of the symbolic automaton: states renamed by a symbolic permutation (all permutations of <=3 states; in some configurations spread to sparse numbers 3,7,..), rules and final states inserted in a symbolic order (forward, backward, rotated, odd-then-even), symbols renumbered. meta_incl: the verdict of each of the 8 inclusion selections and IsLangEmpty on the twins equals a numbering-free macro-state oracle (the identity/forward twin is one of the cases, so every twin agrees with the original), plus the direct form: verdict(twin) == verdict(original) and all 8 selections agree. meta_sim: ComputeSimulation(twin).get(pi(q),pi(r)) equals a numbering-free reference (greatest downward simulation / greatest upward simulation w.r.t. identity) for the direct call on a densely numbered automaton and for the `vata sim` flow (ReindexStates + state count), plus the direct form relation(twin) == renamed image of relation(original); the number of states of Reduce / RemoveUselessStates / RemoveUnreachableStates is the same for twin and original (distinct states counted by comparing the state numbers of the result with each other only, so renumbered results count correctly). laws: A<=A; A<=AuB, B<=AuB, (AuB<=A)==(B<=A); AnB<=A, AnB<=B, (A<=AnB)==(A<=B); transitivity on triples; A equivalent (both directions) to Reduce(A), RemoveUselessStates(A), RemoveUnreachableStates(A), ReindexStates(A) and to its dumped-and-reloaded form (DumpToAutDesc with a state dictionary -> LoadFromAutDesc).',
+  'explanation': 'Metamorphic checks executed symbolically on every automaton / pair / triple drawn from the rule universes of the configuration. The library operands are built as TWINS of the symbolic automaton: states renamed by a symbolic permutation (all permutations of <=3 states; in some configurations spread to sparse numbers 3,7,..), rules and final states inserted in a symbolic order (forward, backward, rotated, odd-then-even), symbols renumbered. meta_incl: the verdict of each of the 8 inclusion selections and IsLangEmpty on the twins equals a numbering-free macro-state oracle (the identity/forward twin is one of the cases, so every twin agrees with the original), plus the direct form: verdict(twin) == verdict(original) and all 8 selections agree. meta_sim: ComputeSimulation(twin).get(pi(q),pi(r)) equals a numbering-free reference (greatest downward simulation / greatest upward simulation w.r.t. identity) for the direct call on a densely numbered automaton and for the `vata sim` flow (ReindexStates + state count), plus the direct form relation(twin) == renamed image of relation(original); the number of states of Reduce / RemoveUselessStates / RemoveUnreachableStates is the same for twin and original (distinct states counted by comparing the state numbers of the result with each other only, so renumbered results count correctly) and, for the two trimming operations, not larger than the reference count of useful resp. top-down reachable states. laws: A<=A; A<=AuB, B<=AuB, (AuB<=A)==(B<=A); AnB<=A, AnB<=B, (A<=AnB)==(A<=B); transitivity on triples; A equivalent (both directions) to Reduce(A), RemoveUselessStates(A), RemoveUnreachableStates(A), ReindexStates(A) and to its dumped-and-reloaded form (DumpToAutDesc with a state dictionary -> LoadFromAutDesc).',
   'bounds': {'quick': 'operands over <=2 states, ranks <=2: pairs 1+1 over {a/0,b/0,f/1}, 2+1 and 1+2 over {a/0,f/1} (all 8 selections, 4 insertion orders, all state permutations; also sparse state numbers 3,7 with symbols numbered 5,2), 2+1 over {a/0,g/2} (selections without simulation, backward insertion); simulations and result sizes on 2 states over {a/0,f/1} and {a/0,g/2} (both permutations, 2 insertion orders, direct and reindexing flow); laws on 2 (+1) states over {a/0,f/1}, transitivity on 1+1+1 states over {a/0,b/0,f/1} for all 8 selections; 10..16 free bits per query',
              'thorough': 'as quick plus 1+2 over {a/0,g/2}, the selections with simulation on the binary universe, 3 states over {a/0,f/1} with all 6 permutations (simulations, sizes), the direct relation-image form on {a/0,g/2}, laws for all selections, transitivity on 2+1+1 states, derived forms on {a/0,g/2}'},
   'outside': 'the corpus clause of the statement (the large automata shipped under automata/ and tests/aut_timbuk_smaller/, for which no reference exists) is outside ANY bound of this method: nothing here loads a corpus file. Also outside: more than 3 states per operand (2 with a binary symbol), rank > 2, more than 3 symbols, renamings that are not injective, the textual Timbuk dump/parse round trip (C13), symbol registration order in an alphabet object (exercised for Complement in C06; inclusion works on raw symbol numbers, renumbered here by SYMMAP)',
